@@ -468,6 +468,7 @@ func checkC17(c *Check) {
 	c.add("O-C17.1", "every go statement of the module is covered", "all go statements of product code are in the two analysed entry points", len(where) == 0 && ngo >= 1, "", where...)
 	c.floor("go statements in product code", 1, ngo)
 	checkNoSharedState(c, "O-C17.4")
+	cachedBundleNotWritten(c, "O-C17.4")
 	responseBodiesClosed(c)
 }
 
